@@ -5,17 +5,6 @@ From OptreeModel Require Export Tree.
 
 Inductive sexp := SI (z : Z) | SL (l : list sexp).
 
-Definition omap {A B} (f : A -> B) (o : option A) : option B :=
-  match o with Some a => Some (f a) | None => None end.
-Definition obind {A B} (o : option A) (f : A -> option B) : option B :=
-  match o with Some a => f a | None => None end.
-
-Fixpoint omapM {A B} (f : A -> option B) (l : list A) : option (list B) :=
-  match l with
-  | [] => Some []
-  | x :: l' => obind (f x) (fun y => omap (cons y) (omapM f l'))
-  end.
-
 Definition dec_Z (s : sexp) : option Z := match s with SI z => Some z | _ => None end.
 Definition dec_nat (s : sexp) : option nat := omap Z.to_nat (dec_Z s).
 Definition dec_bool (s : sexp) : option bool := omap (fun z => negb (Z.eqb z 0)) (dec_Z s).
